@@ -633,4 +633,239 @@ theorem name_bang_spaced (n : Codes) (k : Key) (h : (n, k) ∈ aliases) {w ws ws
   rw [normalize_eq, e0, normalizeLow_bang_ws names hW]
   simpa using row.2
 
+/-! ### The flag a spaced decoration carries by construction is the flag of the property's clause -/
+
+def carries' (L : Str) : Bool := (strip L).head? == some 33 || hasNotWs (strip L) || hasWsNot (strip L)
+
+theorem carriesNeg_eq (s : Str) : carriesNeg s = carries' (lower s) := rfl
+
+theorem searchNot1_mid (A B : Str) {c : Nat} (hc : isSpace c = true) :
+    searchNot1 (A ++ sNot ++ c :: B) = true := by
+  induction A with
+  | nil => simp [searchNot1, sNot, List.isPrefixOf, hc]
+  | cons a t ih =>
+    simp only [List.cons_append, searchNot1, Bool.or_eq_true]
+    exact Or.inr ih
+
+theorem searchNot2_mid (A B : Str) {c : Nat} (hc : isSpace c = true) :
+    searchNot2 (A ++ c :: (sNot ++ B)) = true := by
+  induction A with
+  | nil => simp [searchNot2, sNot, List.isPrefixOf, hc]
+  | cons a t ih =>
+    simp only [List.cons_append, searchNot2, Bool.or_eq_true]
+    exact Or.inr ih
+
+theorem flag_bang {ws : Str} (hws : ws.all isSpace = true) (rest : Str) : carries' (ws ++ 33 :: rest) = true := by
+  have : strip (ws ++ 33 :: rest) = 33 :: rstrip rest := by
+    unfold strip
+    rw [lstrip_ws_cons hws _ _ (by rfl)]
+    have := rstrip_append [] [33] rest (by simp) (by simp [isSpace])
+    simpa using this
+  simp [carries', this]
+
+theorem flag_not1 (A B : Str) {c : Nat} (hc : isSpace c = true) (hB : ∃ x ∈ B, isSpace x = false) :
+    carries' (A ++ sNot ++ c :: B) = true := by
+  have : strip (A ++ sNot ++ c :: B) = lstrip A ++ sNot ++ c :: rstrip B := by
+    unfold strip
+    have e1 : A ++ sNot ++ c :: B = A ++ 110 :: (111 :: 116 :: c :: B) := by simp [sNot]
+    rw [e1, lstrip_junk_cons _ _ _ (by rfl)]
+    have := rstrip_app_of_nonspace hB (lstrip A ++ [110, 111, 116, c])
+    simpa [sNot] using this
+  unfold carries'
+  rw [this, hasNotWs_eq, searchNot1_mid _ _ hc]
+  simp
+
+theorem flag_not2 (A B : Str) {c : Nat} (hc : isSpace c = true) (hA : ∃ x ∈ A, isSpace x = false) :
+    carries' (A ++ c :: (sNot ++ B)) = true := by
+  have : strip (A ++ c :: (sNot ++ B)) = lstrip A ++ c :: (sNot ++ rstrip B) := by
+    unfold strip
+    rw [lstrip_app_of_nonspace hA]
+    have := rstrip_append (lstrip A ++ [c, 110, 111]) [116] B (by simp) (by simp [isSpace])
+    simpa [sNot] using this
+  unfold carries'
+  rw [this, hasWsNot_eq, searchNot2_mid _ _ hc]
+  simp
+
+theorem flag_none (L : Str) (h : L.all clean = true) : carries' L = false := by
+  have hs : ∀ x ∈ strip L, x ≠ 110 ∧ x ≠ 33 := fun x hx => clean_ne h x (lstrip_mem _ x (rstrip_mem _ x hx))
+  unfold carries'
+  rw [hasNotWs_eq, hasWsNot_eq, searchNot1_false _ (fun x hx => (hs x hx).1),
+    searchNot2_false _ (fun x hx => (hs x hx).1)]
+  cases hh : strip L with
+  | nil => rfl
+  | cons a t =>
+    have := (hs a (by rw [hh]; exact List.mem_cons_self)).2
+    simp [this]
+
+theorem word_cases {w : SpWord} (h : w.ok = true) :
+    (lower w.word = sNot ∨ lower w.word = sIs) ∧ w.ws.all isSpace = true ∧ w.ws ≠ [] := by
+  simp only [SpWord.ok, Bool.and_eq_true, Bool.or_eq_true, beq_iff_eq, Bool.not_eq_true'] at h
+  refine ⟨h.1.1, h.1.2, ?_⟩
+  intro e
+  rw [e] at h
+  simp at h
+
+theorem flat_clean (l : List SpWord) (f : SpWord → Str) (h : ∀ w ∈ l, (lower (f w)).all clean = true) :
+    (lower (l.flatMap f)).all clean = true := by
+  induction l with
+  | nil => rfl
+  | cons w t ih =>
+    simp only [List.flatMap_cons, lower_append, List.all_append]
+    rw [h w List.mem_cons_self, ih (fun x hx => h x (List.mem_cons_of_mem _ hx))]
+    rfl
+
+theorem word_clean {w : SpWord} (h : w.ok = true) (hn : w.isNot = false) :
+    (lower w.word).all clean = true ∧ (lower w.ws).all clean = true := by
+  obtain ⟨h1, h2, _⟩ := word_cases h
+  refine ⟨?_, by rw [lower_ws h2]; exact ws_clean h2⟩
+  rcases h1 with h1 | h1
+  · simp [SpWord.isNot, h1] at hn
+  · rw [h1]; rfl
+
+/-- **The flag of a spaced decoration.** Around a text whose lower-casing has no `n`, no `!` and a non-blank
+character, the property's clause gives exactly the flag the decoration carries: `!`, a prefix `not<ws>`
+or a suffix `<ws>not`. -/
+theorem spaced_flag (d : Spaced) (hd : d.ok = true) {R : Str} (hR : (lower R).all clean = true)
+    (hns : ∃ x ∈ lower R, isSpace x = false) : carriesNeg (renderSpaced d R) = d.neg := by
+  simp only [Spaced.ok, Bool.and_eq_true] at hd
+  obtain ⟨⟨⟨⟨hL, hRr⟩, hb⟩, hpre⟩, hpost⟩ := hd
+  obtain ⟨x, hx, hxs⟩ := hns
+  rw [carriesNeg_eq]
+  unfold renderSpaced Spaced.before Spaced.after Spaced.neg
+  cases hbang : d.bang with
+  | some w =>
+    rw [hbang] at hb
+    have e : lower (d.outerL ++ (33 :: w) ++ (d.pre.flatMap fun w => w.word ++ w.ws) ++ R ++
+        ((d.post.flatMap fun w => w.ws ++ w.word) ++ d.outerR)) =
+        d.outerL ++ 33 :: lower (w ++ (d.pre.flatMap fun w => w.word ++ w.ws) ++ R ++
+        ((d.post.flatMap fun w => w.ws ++ w.word) ++ d.outerR)) := by
+      simp [lower_append, lower_cons, lower_ws hL, lowerC]
+    simp only
+    rw [e, flag_bang hL]
+    rfl
+  | none =>
+    simp only [List.append_nil, Option.isSome_none, Bool.false_or]
+    by_cases h1 : d.pre.any SpWord.isNot = true
+    · obtain ⟨w, hw, hn⟩ := List.any_eq_true.mp h1
+      obtain ⟨s, t, e⟩ := List.append_of_mem hw
+      obtain ⟨_, hws, hne⟩ := word_cases (List.all_eq_true.mp hpre w hw)
+      have hN : lower w.word = sNot := by simpa [SpWord.isNot] using hn
+      obtain ⟨c, ws', hcw⟩ := List.exists_cons_of_ne_nil hne
+      have hc : isSpace c = true := by
+        rw [hcw] at hws; simp only [List.all_cons, Bool.and_eq_true] at hws; exact hws.1
+      have hlw : lower w.ws = c :: lower ws' := by
+        rw [lower_ws hws, hcw]
+        rw [hcw] at hws; simp only [List.all_cons, Bool.and_eq_true] at hws
+        rw [lower_ws hws.2]
+      rw [h1, e]
+      simp only [List.flatMap_append, List.flatMap_cons, lower_append, hN, hlw]
+      have := flag_not1 (lower d.outerL ++ lower (s.flatMap fun w => w.word ++ w.ws))
+        (lower ws' ++ (lower (t.flatMap fun w => w.word ++ w.ws) ++ (lower R ++
+          (lower (d.post.flatMap fun w => w.ws ++ w.word) ++ lower d.outerR)))) hc ⟨x, by simp [hx], hxs⟩
+      simpa [List.append_assoc] using this
+    · by_cases h2 : d.post.any SpWord.isNot = true
+      · obtain ⟨w, hw, hn⟩ := List.any_eq_true.mp h2
+        obtain ⟨s, t, e⟩ := List.append_of_mem hw
+        obtain ⟨_, hws, hne⟩ := word_cases (List.all_eq_true.mp hpost w hw)
+        have hN : lower w.word = sNot := by simpa [SpWord.isNot] using hn
+        rcases List.eq_nil_or_concat w.ws with h0 | ⟨ws', c, hcw⟩
+        · exact absurd h0 hne
+        · rw [List.concat_eq_append] at hcw
+          have hc : isSpace c = true := by
+            rw [hcw] at hws; simp only [List.all_append, List.all_cons, Bool.and_eq_true] at hws; exact hws.2.1
+          have hlw : lower w.ws = lower ws' ++ [c] := by
+            rw [lower_ws hws, hcw]
+            rw [hcw] at hws; simp only [List.all_append, Bool.and_eq_true] at hws
+            rw [lower_ws hws.1]
+          rw [h2, e]
+          simp only [List.flatMap_append, List.flatMap_cons, lower_append, hN, hlw]
+          have := flag_not2 (lower d.outerL ++ (lower (d.pre.flatMap fun w => w.word ++ w.ws) ++ (lower R ++
+            (lower (s.flatMap fun w => w.ws ++ w.word) ++ lower ws'))))
+            (lower (t.flatMap fun w => w.ws ++ w.word) ++ lower d.outerR) hc ⟨x, by simp [hx], hxs⟩
+          simpa [List.append_assoc] using this
+      · have h1' : d.pre.any SpWord.isNot = false := by simpa using h1
+        have h2' : d.post.any SpWord.isNot = false := by simpa using h2
+        rw [h1', h2']
+        apply flag_none
+        have hp : ∀ w ∈ d.pre, (lower (w.word ++ w.ws)).all clean = true := by
+          intro w hw
+          have hn : w.isNot = false := by
+            have := List.any_eq_false.mp h1' w hw
+            simpa using this
+          obtain ⟨a, b⟩ := word_clean (List.all_eq_true.mp hpre w hw) hn
+          rw [lower_append, List.all_append, a, b]; rfl
+        have hq : ∀ w ∈ d.post, (lower (w.ws ++ w.word)).all clean = true := by
+          intro w hw
+          have hn : w.isNot = false := by
+            have := List.any_eq_false.mp h2' w hw
+            simpa using this
+          obtain ⟨a, b⟩ := word_clean (List.all_eq_true.mp hpost w hw) hn
+          rw [lower_append, List.all_append, a, b]; rfl
+        simp only [lower_append, List.all_append, flat_clean _ _ hp, flat_clean _ _ hq, hR, lower_ws hL, lower_ws hRr,
+          ws_clean hL, ws_clean hRr, Bool.and_self]
+
+/-! ### What surrounds the body in a spaced rendering is a decoration text -/
+
+theorem lowerC_deco {a : Nat}
+    (h : lowerC a = 110 ∨ lowerC a = 111 ∨ lowerC a = 116 ∨ lowerC a = 105 ∨ lowerC a = 115) :
+    decoChar a = true := by
+  unfold lowerC at h
+  simp only [decoChar, isSpace, Bool.or_eq_true, beq_iff_eq, Bool.and_eq_true, decide_eq_true_eq]
+  split at h <;> omega
+
+theorem ws_deco {l : Str} (h : l.all isSpace = true) : l.all decoChar = true := by
+  rw [List.all_eq_true] at *
+  intro c hc
+  simp [decoChar, h c hc]
+
+theorem word_deco {w : Str} (h : lower w = sNot ∨ lower w = sIs) : w.all decoChar = true := by
+  rw [List.all_eq_true]
+  intro a ha
+  have hm : lowerC a ∈ lower w := List.mem_map_of_mem ha
+  apply lowerC_deco
+  rcases h with h | h <;> (rw [h] at hm; simp [sNot, sIs] at hm; omega)
+
+theorem flat_all (l : List SpWord) (f : SpWord → Str) (p : Nat → Bool) (h : ∀ w ∈ l, (f w).all p = true) :
+    (l.flatMap f).all p = true := by
+  induction l with
+  | nil => rfl
+  | cons w t ih =>
+    simp only [List.flatMap_cons, List.all_append]
+    rw [h w List.mem_cons_self, ih (fun x hx => h x (List.mem_cons_of_mem _ hx))]
+    rfl
+
+theorem spaced_deco (d : Spaced) (hd : d.ok = true) :
+    d.before.all decoChar = true ∧ d.after.all decoChar = true := by
+  simp only [Spaced.ok, Bool.and_eq_true] at hd
+  obtain ⟨⟨⟨⟨hL, hRr⟩, hb⟩, hpre⟩, hpost⟩ := hd
+  have hp : ∀ w ∈ d.pre, (w.word ++ w.ws).all decoChar = true := by
+    intro w hw
+    obtain ⟨a, b, _⟩ := word_cases (List.all_eq_true.mp hpre w hw)
+    rw [List.all_append, word_deco a, ws_deco b]; rfl
+  have hq : ∀ w ∈ d.post, (w.ws ++ w.word).all decoChar = true := by
+    intro w hw
+    obtain ⟨a, b, _⟩ := word_cases (List.all_eq_true.mp hpost w hw)
+    rw [List.all_append, word_deco a, ws_deco b]; rfl
+  constructor
+  · unfold Spaced.before
+    cases hh : d.bang with
+    | none =>
+      simp only [List.append_nil]
+      rw [List.all_append, ws_deco hL, flat_all _ _ _ hp]; rfl
+    | some w =>
+      rw [hh] at hb
+      simp only at hb ⊢
+      rw [List.all_append, List.all_append, ws_deco hL, flat_all _ _ _ hp, List.all_cons, ws_deco hb]; rfl
+  · unfold Spaced.after
+    rw [List.all_append, flat_all _ _ _ hq, ws_deco hRr]; rfl
+
+/-- A spaced decoration around a text whose lower-casing is a body: the key, and the flag the decoration
+carries. -/
+theorem spaced_render {k : Key} (hk : k ∈ allKeys) {R : Str} (hR : Body k (lower R)) (d : Spaced)
+    (hd : d.ok = true) : normalize names (renderSpaced d R) = some (k.codes, d.neg) := by
+  obtain ⟨h1, h2⟩ := spaced_deco d hd
+  have := spaced_body hk hR h1 h2
+  rw [← spaced_flag d hd (body_clean hR) (body_nonspace hR)]
+  exact this
+
 end Paroxy.NP
